@@ -1,10 +1,10 @@
 #!/bin/sh
 # sensitivity self-test: every self-made mutant must be detected (exit 1) by the owning check's quick tier
-cd /verif
+cd "$(dirname "$0")/.."
 fail=0
 python3 - <<'P' > /var/tmp/selftest_list.txt
 import json
-for m in json.load(open('/verif/mutants/INDEX.json'))['mutants']:
+for m in json.load(open('mutants/INDEX.json'))['mutants']:
     print(m['patch'], m['check'])
 P
 while read patch check; do
